@@ -51,7 +51,7 @@ class Ob:
     def __init__(self, name, harness, entry, props, defines=(), cbmc=(), backend="sat",
                  timeout=600, mem_gb=6, witness=True, ub=False, extra_src=(), functions=(),
                  bounds="", assumptions=(), outside=(), unwind_is_violation=False,
-                 nowitness_reason="", object_bits=None, describe="", ignore_unwind=(), post=None, shrink=None, witness_mode="all", remove_bodies=()):
+                 nowitness_reason="", object_bits=None, describe="", ignore_unwind=(), post=None, shrink=None, witness_mode="all", remove_bodies=(), witnesses=None):
         self.name = name
         self.harness = harness
         self.entry = entry
@@ -74,6 +74,7 @@ class Ob:
         self.describe = describe
         self.ignore_unwind = list(ignore_unwind)   # unwinding assertions justified by a lemma obligation instead
         self.post = post
+        self.witnesses = list(witnesses) if witnesses else None   # if given: exactly these WITNESS points must be reachable (others belong to other entry points)
         self.remove_bodies = list(remove_bodies)  # functions cut with goto-instrument --remove-function-body (CBMC build only)
         self.witness_mode = witness_mode  # all: every WITNESS point must be reachable; any: at least one (case-split obligations)
         self.shrink = shrink              # name of a textual array-shrink transformation (SHRINKS)
@@ -427,8 +428,12 @@ def run_obligation(ob, scratch, keep_out=False):
                 rec["verdict"] = "inconclusive"
                 return rec
             _, _, wit, _ = classify(results)
+            if ob.witnesses is not None:
+                wit = [w for w in wit if w["description"][8:] in ob.witnesses]
             reach = [w["description"][8:] for w in wit if w.get("status") == "FAILURE"]
             unreach = [w["description"][8:] for w in wit if w.get("status") != "FAILURE"]
+            if ob.witnesses is not None:
+                unreach += [n for n in ob.witnesses if n not in reach and n not in unreach]
             rec["witnesses_reachable"] = sorted(set(reach))
             if unreach and ob.witness_mode == "any" and reach:
                 rec["notes"].append("witness points outside this case-split class: %d" % len(set(unreach)))
